@@ -88,16 +88,21 @@ func drawConfig(rt *rapid.T, label string, keyLevel bool) *streamref.Config {
 			c.TagSize = rapid.IntRange(10, d).Draw(rt, label+"_tagsize")
 		}
 	}
+	// lateOffset: the first segment offset is chosen after the segment size, anywhere up to the
+	// largest legal value segmentSize - header - tag - 1 (first segment holds one plaintext byte).
+	lateOffset := false
 	if !keyLevel {
-		switch rapid.IntRange(0, 5).Draw(rt, label+"_offkind") {
+		switch rapid.IntRange(0, 7).Draw(rt, label+"_offkind") {
 		case 0, 1:
 			c.Offset = 0
 		case 2:
 			c.Offset = 1
 		case 3:
 			c.Offset = 16
-		default:
+		case 4, 5:
 			c.Offset = rapid.IntRange(0, 16).Draw(rt, label+"_off")
+		default:
+			lateOffset = true
 		}
 	}
 	min := streamref.MinSegmentSize(c.KeySize, c.TagLen(), c.Offset)
@@ -108,6 +113,20 @@ func drawConfig(rt *rapid.T, label string, keyLevel bool) *streamref.Config {
 		c.SegmentSize = rapid.IntRange(min, 4096).Draw(rt, label+"_seg")
 	default:
 		c.SegmentSize = rapid.SampledFrom([]int{256, 1024, 4096}).Draw(rt, label+"_segstd")
+	}
+	if lateOffset {
+		max := c.SegmentSize - c.HeaderLen() - c.TagLen() - 1
+		switch rapid.IntRange(0, 3).Draw(rt, label+"_lateoffkind") {
+		case 0:
+			c.Offset = max
+		case 1:
+			c.Offset = max - 1
+		default:
+			c.Offset = rapid.IntRange(0, max).Draw(rt, label+"_lateoff")
+		}
+		if c.Offset < 0 {
+			c.Offset = 0
+		}
 	}
 	if err := c.Check(); err != nil {
 		rt.Fatalf("harness: generated configuration %v outside the domain: %v", c, err)
@@ -450,6 +469,29 @@ var (
 	errSource = errors.New("c07: injected failure of the underlying reader")
 )
 
+// faultErrKinds are the shapes of the persistent error an underlying stream reports. The wrapped
+// end-of-stream values are errors of the transport ("read tcp ...: EOF"), not the io.EOF sentinel
+// an io.Reader uses for a clean end: callers - and io.ReadFull, io.ReadAll - compare the sentinel
+// by identity.
+var faultErrKinds = []string{"plain", "plain", "wrapped-EOF", "wrapped-ErrUnexpectedEOF", "bare-ErrUnexpectedEOF"}
+
+func faultErr(kind, side string) error {
+	switch kind {
+	case "wrapped-EOF":
+		return fmt.Errorf("c07: injected failure of the underlying %s: %w", side, io.EOF)
+	case "wrapped-ErrUnexpectedEOF":
+		return fmt.Errorf("c07: injected failure of the underlying %s: %w", side, io.ErrUnexpectedEOF)
+	case "bare-ErrUnexpectedEOF":
+		// what a transport reports when ITS input stopped early (net/http bodies, gzip): an I/O error,
+		// not the clean end io.EOF stands for (F19: the reader took it for the end of the ciphertext)
+		return io.ErrUnexpectedEOF
+	}
+	if side == "writer" {
+		return errSink
+	}
+	return errSource
+}
+
 // sink is the underlying writer. From byte offset failAt on (failAt >= 0) it fails persistently:
 // the Write that would store byte failAt stores nothing (or, with partial, everything before
 // that byte) and returns an error, and so does every later Write.
@@ -459,12 +501,20 @@ type sink struct {
 	partial bool
 	failed  bool
 	calls   int
+	failErr error // nil: errSink
+}
+
+func (s *sink) fault() error {
+	if s.failErr != nil {
+		return s.failErr
+	}
+	return errSink
 }
 
 func (s *sink) Write(p []byte) (int, error) {
 	s.calls++
 	if s.failed {
-		return 0, errSink
+		return 0, s.fault()
 	}
 	if s.failAt >= 0 && len(s.buf)+len(p) > s.failAt {
 		s.failed = true
@@ -473,7 +523,7 @@ func (s *sink) Write(p []byte) (int, error) {
 			n = s.failAt - len(s.buf)
 			s.buf = append(s.buf, p[:n]...)
 		}
-		return n, errSink
+		return n, s.fault()
 	}
 	s.buf = append(s.buf, p...)
 	return len(p), nil
@@ -492,6 +542,14 @@ type source struct {
 	failAt       int
 	failWithData bool
 	faultHit     bool
+	failErr      error // nil: errSource
+}
+
+func (s *source) fault() error {
+	if s.failErr != nil {
+		return s.failErr
+	}
+	return errSource
 }
 
 func newSource(data []byte, p readPlan, failAt int) *source {
@@ -517,7 +575,7 @@ func (s *source) Read(p []byte) (int, error) {
 	if s.pos >= limit {
 		if faulty {
 			s.faultHit = true
-			return 0, errSource
+			return 0, s.fault()
 		}
 		return 0, io.EOF
 	}
@@ -533,7 +591,7 @@ func (s *source) Read(p []byte) (int, error) {
 	if s.pos == limit {
 		if faulty && s.failWithData {
 			s.faultHit = true
-			return n, errSource
+			return n, s.fault()
 		}
 		if !faulty && s.eofTogether {
 			return n, io.EOF
@@ -622,7 +680,13 @@ type readResult struct {
 // first error. A Read that returns (0, nil) into a non-empty buffer is legal; after 64 of them
 // the run is given up as inconclusive.
 func runReads(rt *rapid.T, dec tink.StreamingAEAD, data, aad []byte, plan readPlan, failAt int) readResult {
+	return runReadsErr(rt, dec, data, aad, plan, failAt, nil)
+}
+
+// runReadsErr is runReads with a chosen persistent error of the source (nil: errSource).
+func runReadsErr(rt *rapid.T, dec tink.StreamingAEAD, data, aad []byte, plan readPlan, failAt int, failErr error) readResult {
 	res := readResult{src: newSource(data, plan, failAt)}
+	res.src.failErr = failErr
 	r, err := dec.NewDecryptingReader(res.src, aad)
 	if err != nil {
 		res.stage, res.err = "constructor", err
@@ -1212,6 +1276,8 @@ func TestFaults(t *testing.T) {
 		c := drawCase(rt, 8)
 		cfg := c.t.cfg()
 		side := rapid.SampledFrom([]string{"writer", "reader"}).Draw(rt, "side")
+		errKind := rapid.SampledFrom(faultErrKinds).Draw(rt, "faulterr")
+		ferr := faultErr(errKind, side)
 		nseg := cfg.NumSegments(len(c.pt))
 		total := cfg.CiphertextLen(len(c.pt))
 		if side == "writer" {
@@ -1220,10 +1286,10 @@ func TestFaults(t *testing.T) {
 			ks := faultPositions(rt, cfg, len(c.pt), false)
 			stages := map[string]int{}
 			for _, k := range ks {
-				sk := &sink{failAt: k, partial: partial}
+				sk := &sink{failAt: k, partial: partial, failErr: ferr}
 				res := runWrites(c.t.enc, sk, c.aad, c.pt, wp)
 				if res.stage == "" {
-					rt.Fatalf("%v\n  %v\nthe underlying writer failed persistently from byte offset %d (partial write=%v; it accepted %d of the %d ciphertext bytes in %d calls), but NewEncryptingWriter, all %d Write calls %v and Close returned nil", c, wp, k, partial, len(sk.buf), total, sk.calls, len(res.writes), res.writes)
+					rt.Fatalf("%v\n  %v\nthe underlying writer failed persistently (error %q) from byte offset %d (partial write=%v; it accepted %d of the %d ciphertext bytes in %d calls), but NewEncryptingWriter, all %d Write calls %v and Close returned nil", c, wp, ferr, k, partial, len(sk.buf), total, sk.calls, len(res.writes), res.writes)
 				}
 				if !sk.failed {
 					// an error without a failure underneath: the stream is healthy up to here
@@ -1235,9 +1301,9 @@ func TestFaults(t *testing.T) {
 				evid.Add("writer_error_from_"+s, int64(n))
 			}
 			evid.Add("fault_positions", int64(len(ks)))
-			class := fmt.Sprintf("%s/writer/segs=%s/%s/w=%s/partial=%v", c.t.class(), segClass(nseg), relClass(cfg, len(c.pt)), wp.kind, partial)
-			evid.Case(class, true, evid.NewH().S("w").S(c.t.String()).B(c.pt).B(c.aad).S(wp.String()).S(fmt.Sprint(ks, partial)).Sum(), func() any {
-				return map[string]any{"target": c.t.String(), "pt_len": len(c.pt), "segments": nseg, "writes": wp.String(), "fault_offsets": ks, "partial": partial, "error_sites": stages}
+			class := fmt.Sprintf("%s/writer/segs=%s/%s/w=%s/partial=%v/err=%s", c.t.class(), segClass(nseg), relClass(cfg, len(c.pt)), wp.kind, partial, errKind)
+			evid.Case(class, true, evid.NewH().S("w").S(c.t.String()).B(c.pt).B(c.aad).S(wp.String()).S(fmt.Sprint(ks, partial, errKind)).Sum(), func() any {
+				return map[string]any{"target": c.t.String(), "pt_len": len(c.pt), "segments": nseg, "writes": wp.String(), "fault_offsets": ks, "partial": partial, "fault_error": errKind, "error_sites": stages}
 			})
 			return
 		}
@@ -1246,8 +1312,8 @@ func TestFaults(t *testing.T) {
 		ks := faultPositions(rt, cfg, len(c.pt), true)
 		stages := map[string]int{}
 		for _, k := range ks {
-			res := runReads(rt, c.t.dec, ct, c.aad, rp, k)
-			desc := fmt.Sprintf("%v\n  %v\n  ciphertext=%s\n  the underlying reader fails persistently from byte offset %d of %d", c, rp, fullHex(ct), k, len(ct))
+			res := runReadsErr(rt, c.t.dec, ct, c.aad, rp, k, ferr)
+			desc := fmt.Sprintf("%v\n  %v\n  ciphertext=%s\n  the underlying reader fails persistently (error %q) from byte offset %d of %d", c, rp, fullHex(ct), ferr, k, len(ct))
 			expectError(rt, desc, res, c.pt)
 			if !res.src.faultHit {
 				rt.Fatalf("%s\nan error (%s: %v) was reported before the underlying reader failed (it had delivered %d bytes)", desc, res.stage, res.err, res.src.pos)
@@ -1258,9 +1324,9 @@ func TestFaults(t *testing.T) {
 			evid.Add("reader_error_from_"+s, int64(n))
 		}
 		evid.Add("fault_positions", int64(len(ks)))
-		class := fmt.Sprintf("%s/reader/segs=%s/%s/r=%s/src=%s", c.t.class(), segClass(nseg), relClass(cfg, len(c.pt)), rp.bufKind, rp.chunkKind)
-		evid.Case(class, true, evid.NewH().S("r").S(c.t.String()).B(c.pt).B(c.aad).S(rp.String()).S(fmt.Sprint(ks)).Sum(), func() any {
-			return map[string]any{"target": c.t.String(), "pt_len": len(c.pt), "segments": nseg, "reads": rp.String(), "fault_offsets": ks, "error_sites": stages}
+		class := fmt.Sprintf("%s/reader/segs=%s/%s/r=%s/src=%s/err=%s", c.t.class(), segClass(nseg), relClass(cfg, len(c.pt)), rp.bufKind, rp.chunkKind, errKind)
+		evid.Case(class, true, evid.NewH().S("r").S(c.t.String()).B(c.pt).B(c.aad).S(rp.String()).S(fmt.Sprint(ks, errKind)).Sum(), func() any {
+			return map[string]any{"target": c.t.String(), "pt_len": len(c.pt), "segments": nseg, "reads": rp.String(), "fault_offsets": ks, "fault_error": errKind, "error_sites": stages}
 		})
 	})
 }
